@@ -90,7 +90,7 @@ var seqsimAssume = []string{
 func init() {
 	props["C16"] = propCfg{Engine: "seqsim", Level: "fault_enumeration", QuickRandom: 100000, QuickWall: 20, ThoroughRand: 3000000, ThoroughWall: 540, Assumptions: seqsimAssume,
 		Rule: "one case = one visit (Morphism.Apply) of one program. Programs: every well-typed program of Join/LiftF/WrapF/Unit/Yield up to length 5 (thorough 6) after From over the type universe int, []int, [][]int, [][][]int, Void (exhaustive), plus seeded random programs up to length 9 (thorough 14), nesting depth <= 6. For each program: the fault-free visit, then one visit per callback position k with the visitor failing exactly there (exhaustive over k). evaluations = visits; distinct = distinct programs; non-trivial = program opens at least one nested context."}
-	props["C18"] = propCfg{Engine: "seqsim", Level: "exploration", QuickRandom: 60000, QuickWall: 20, ThoroughRand: 600000, ThoroughWall: 540, Assumptions: seqsimAssume,
+	props["C18"] = propCfg{Engine: "seqsim", Level: "exploration", QuickRandom: 240000, QuickWall: 20, ThoroughRand: 600000, ThoroughWall: 540, Assumptions: seqsimAssume,
 		Rule: "one case = one operation history executed against the real skip list and a Go map, inside a bubble whose simulated clock (the seed of the height generator) was advanced to a chosen offset before skiplist.New. Enumerated: every history of Put/Get/Remove over keys {1,2,3} x values {1,2} up to length 4 (thorough 5) x 6 clock offsets (thorough 10); then seeded random histories (quick <= 40 operations, thorough <= 2000; universes of 2..64 keys; int, reversed int and string keys; churn / descending / overwrite biases; random clock offsets). After every operation the printed form is parsed and checked. Distinct = distinct (history, clock offset); non-trivial = removes a present key or overwrites one."}
 	props["C11"] = propCfg{Engine: "pipesim", Level: "exploration", QuickRandom: 150000, QuickWall: 20, ThoroughRand: 40000000, ThoroughWall: 540,
 		Rule: "one case = one simulated run of Emit or Unfold on the virtual clock. Enumerated: {Emit,Unfold} x capacity {0,1,2,5} x consumer takes 0..4 values (thorough 0..7) x 6 base schedules x 3 consumer paces (always ready, fixed slower pace, burst after a long stall), cancel swept over every step; then seeded random plans: function family, frequency {1ms,10ms,1s}, Try-mode failing index sets, consumer paces, cancel by step / virtual time / after the consumer left. Oracles: k-th value exact (online), calls at least one frequency apart, k-th value not before k ticks, always-ready consumer receives exactly one value per tick, close and exit after cancel. " + distinctRule}
